@@ -50,15 +50,15 @@ var propConfigs = map[string]propConfig{
 	"C02": {Gen: true, Bounded: []boundedCheck{{Name: "independent-parse", Run: "TestBoundedC02", Module: true,
 		Bound: "two struct shapes (Rec: required/optional/repeated columns of every physical type and one repeated group; Deep: groups nested three levels, the same group name under two parents, a repeated group inside a repeated group, fully required nesting), 11 Add/Write histories (Rec) and 6 batch partitions (Deep), page sizes 1,2,3,4,5,8,1000, three codecs: every file parsed by an independent checker (schema tree walked by num_children against the expected leaves with path, type, converted type and repetition; chunks one to one with the leaves in order; offsets contiguous from byte 4 to the footer; every page decompressed, level sections decoded with an own RLE/bit-packing decoder, value sections measured by type; header sizes, value counts, chunk totals, row counts, records per page <= page size, pages starting at record boundaries; footer length word and both magics)"}}},
 	"C03": {Gen: true, Bounded: []boundedCheck{{Name: "independent-striping", Run: "TestBoundedC03", Module: true,
-		Bound: "two struct shapes (Rec, Deep: see C02), 24 seeded random record sets each (1..60 records; every pointer nil one time in three, lists of length 0..3 and occasionally 9..17 at every nesting level, extreme values): the repetition level, definition level and PLAIN value of every entry of every column, decoded from the written file by the independent parser, compared with an independent implementation of Dremel striping written from the paper over Go reflection"}}},
+		Bound: "two struct shapes (Rec, Deep: see C02), 24 seeded random record sets each (1..60 records; every pointer nil one time in three, lists of length 0..3 and occasionally 9..17 at every nesting level, extreme values): the repetition level, definition level and PLAIN value of every entry of every column, decoded from the written file by the independent parser, compared with an independent implementation of Dremel striping written from the paper over Go reflection; thorough tier: 480 record sets per shape"}}},
 	"C01": {Gen: true, Bounded: []boundedCheck{{Name: "round-trip", Run: "TestBoundedC01", Module: true,
-		Bound: "three struct shapes (Rec, Deep, and OPP = the shape of known finding D10), 39 resp. 30 resp. 40 seeded random record sets (0..120 records, three sets of 1300 records in pages of 600..2000 records so that level streams hold bit-packed runs beyond 504 values; nil/non-nil optionals and list lengths 0..3/9..17 at every level; min/max integers, +-0, +-Inf, NaN payloads, empty/long/non-UTF8 strings), partitions {one batch, two batches, one record per batch, 1/n3/rest}, page sizes 1,2,3,7,1000, three codecs: records read back and compared entry by entry (floats bit for bit, nil and empty lists alike), Rows(), number of true Next() calls, Error()==nil; every record's slices and strings mutated by the caller right after Add; all records compared only after the last one was scanned"}}},
+		Bound: "three struct shapes (Rec, Deep, and OPP = the shape of known finding D10), 39 resp. 30 resp. 40 seeded random record sets (0..120 records, three sets of 1300 records in pages of 600..2000 records so that level streams hold bit-packed runs beyond 504 values; nil/non-nil optionals and list lengths 0..3/9..17 at every level; min/max integers, +-0, +-Inf, NaN payloads, empty/long/non-UTF8 strings), partitions {one batch, two batches, one record per batch, 1/n3/rest}, page sizes 1,2,3,7,1000, three codecs: records read back and compared entry by entry (floats bit for bit, nil and empty lists alike), Rows(), number of true Next() calls, Error()==nil; every record's slices and strings mutated by the caller right after Add; all records compared only after the last one was scanned; thorough tier: 400 record sets per shape"}}},
 	"C04": {Bounded: []boundedCheck{{Name: "foreign-encodings", Run: "TestBoundedC04", Module: true,
-		Bound: "60 files (1..700 records of the Rec shape, 1-2 row groups, written with each codec and page sizes 1/3/8/1000) re-encoded by an independent rewriter into another legal encoding of the same content (seeded random: RLE runs of any length >= 1, bit-packed runs of any group count incl. > 63 groups with multi-byte headers, padding bits of the last group set to 1, pages split per column at arbitrary record boundaries, a codec per column, statistics/created_by present or absent); each rewritten file is first accepted by the independent checker and decoded back to the same columns, then read with the generated reader and compared record by record"},
+		Bound: "60 files (1..700 records of the Rec shape, 1-2 row groups, written with each codec and page sizes 1/3/8/1000) re-encoded by an independent rewriter into another legal encoding of the same content (seeded random: RLE runs of any length >= 1, bit-packed runs of any group count incl. > 63 groups with multi-byte headers, padding bits of the last group set to 1, pages split per column at arbitrary record boundaries, a codec per column, statistics/created_by present or absent); each rewritten file is first accepted by the independent checker and decoded back to the same columns, then read with the generated reader and compared record by record; thorough tier: 600 files"},
 		{Name: "level-decoder-foreign-encodings", PkgRel: "internal/rle", File: "replay/rle_bounded_test.go.txt", Run: "TestBoundedC07",
 			Bound: "the library's level decoder against an independent specification decoder on foreign legal encodings (bound as stated for C07)"}}},
 	"C06": {Gen: true, Bounded: []boundedCheck{{Name: "history-enumeration", Run: "TestBoundedC06", Module: true,
-		Bound: "every history over {Add, Write} of length <= 7 (gzip: <= 5) ended by Close, page sizes 1..3, three codecs, plus 7 longer shapes (page-size multiples followed by empty Writes, records pending at Close) at page sizes 1..4: footer row groups/NumRows/offsets/sizes parsed independently and compared with a list-of-batches model, every chunk walked page by page, records read back and compared, files with and without empty Writes compared byte for byte"}}},
+		Bound: "every history over {Add, Write} of length <= 7 (gzip: <= 5) ended by Close, page sizes 1..3, three codecs, plus 7 longer shapes (page-size multiples followed by empty Writes, records pending at Close) at page sizes 1..4: footer row groups/NumRows/offsets/sizes parsed independently and compared with a list-of-batches model, every chunk walked page by page, records read back and compared, files with and without empty Writes compared byte for byte; thorough tier: every history of length <= 10 (gzip: <= 8), page sizes 1..4"}}},
 	"C13": {Gen: true, Bounded: []boundedCheck{{Name: "race-detector", Run: "TestBoundedC13", Module: true, Race: true,
 		Bound: "24 goroutines (8 per codec) each writing and reading back the same 40-record history concurrently after the pools were dirtied by other workloads, under the Go race detector; outputs compared byte for byte with the sequential run; one scheduler run, not a schedule enumeration"}}},
 	"C07": {Bounded: []boundedCheck{{Name: "rle-roundtrip", PkgRel: "internal/rle", File: "replay/rle_bounded_test.go.txt", Run: "TestBoundedC07",
